@@ -599,7 +599,52 @@ def fam_shape_arith(rng):
         yield g, {"consumer": consumer, "arith": arith, "const": cst, "symbolic": list(sym)}, outs
 
 
+def fam_const_arith(rng):
+    """Arithmetic between two constants (float with integral or fractional values,
+    or integer), which shape inference may fold at load time, feeding a dynamic
+    consumer. Float and integer semantics differ for division and large values."""
+    pairs = [(3.0, 2.0), (1.0, 2.0), (7.0, -2.0), (-7.0, 2.0), (6.0, 3.0), (0.0, 0.0), (1.0, 0.0), (0.0, 5.0), (2.5, 0.5),
+             (16777216.0, 1.0), (-1.0, 3.0), (2.0, 0.5), (100.0, 7.0)]
+    for op, (a, b), dt, shape_a, shape_b in itertools.product(["Div", "Add", "Sub", "Mul", "Pow", "Mod"], pairs, ["f32", "i32"], [(), (1,), (2,)], [(), (1,)]):
+        if dt == "i32" and (a != int(a) or b != int(b)):
+            continue
+        if op in ("Pow", "Mod") and rng.chance(1, 2):
+            continue
+        if rng.chance(2, 3):
+            continue
+        g = new_builder(rng)
+        g.swap_prob = 0
+        npdt = np.float32 if dt == "f32" else np.int32
+        c1 = g.add_init(dt, np.full(shape_a, a, dtype=npdt))
+        c2 = g.add_init(dt, np.full(shape_b, b, dtype=npdt))
+        try:
+            if op == "Div":
+                q = div(g, c1, c2)
+            elif op == "Add":
+                q = add(g, c1, c2)
+            elif op == "Sub":
+                q = sub(g, c1, c2)
+            elif op == "Mul":
+                q = mul(g, c1, c2)
+            elif op == "Pow":
+                if dt == "i32" and b < 0:
+                    continue
+                q = g.node("Pow", [c1, c2], lambda x, y: np.power(x.astype(np.float64), y.astype(np.float64)).astype(x.dtype))
+            else:
+                if b == 0:
+                    continue
+                attrs = {"fmod": 1} if dt == "f32" else {}
+                q = g.node("Mod", [c1, c2], lambda x, y: (np.fmod(x, y) if dt == "f32" else np.mod(x, y)).astype(x.dtype), attrs)
+        except Invalid:
+            continue
+        x = data_input(g, rng, (2, 2), dt, symbolic=[rng.bool(), False])
+        y = mul(g, x, q) if rng.bool() else add(g, q, x)
+        outs = [y, q] if rng.bool() else [y]
+        yield g, {"op": op, "a": a, "b": b, "dt": dt, "shape_a": list(shape_a), "shape_b": list(shape_b)}, outs
+
+
 FAMILIES = [
+    ("const_arith", fam_const_arith),
     ("identity_arith", fam_identity_arith), ("identity_cast", fam_identity_cast), ("reciprocal", fam_reciprocal),
     ("reduce_mean_axes", fam_reduce_mean_axes), ("gelu", fam_gelu), ("approx_gelu", fam_approx_gelu), ("silu_swish", fam_silu_swish),
     ("layernorm", fam_layernorm), ("matmul_add_scale", fam_matmul_add_scale), ("matmul_integer_float", fam_matmul_integer_float),
